@@ -108,7 +108,7 @@ def run(ctx):
                          "\\\\uXXXX escapes must get the same verdict; non-trivial = schema with >= 2 annotated nodes")
     ctx.assumptions += ["intrinsic oracle (equality across spellings); the Coq side (respelling lemmas on the schema scanner model) is not built: partial"]
     groups = []
-    n = 150 if quick else 6000
+    n = 600 if quick else 12000
     for _ in range(n):
         w = J.rand_rule_schema(rng, rng.randint(1, 4))
         docs = []
